@@ -270,9 +270,10 @@ def run(pm, ctx):
           unparse(l.iter) == 'filtered_routes']
     ok = len(fl) == 1 and any(isinstance(c, ast.Call) and unparse(c) == 'namespace.add_route(route)'
                               for c in ast.walk(fl[0]))
-    keep = [n for n in own_nodes(main.node) if isinstance(n, ast.Call) and
-            unparse(n) == 'filtered_routes.append(route)']
-    ok = ok and len(keep) == 1 and [(unparse(e), pol) for e, pol in pi.at(keep[0])
+    from ..model import element_sites
+    keep = [l for l in element_sites(main.node) if unparse(l['iter']) == 'namespace.routes' and
+            unparse(l['elt']) == 'route']
+    ok = ok and len(keep) == 1 and [(unparse(e), pol) for e, pol in pi.at(keep[0]['node'])
                                     if 'eval' in unparse(e)] == [('route_filter.eval(route)', True)]
     ctx.check('C19-R3', ok, 'a route survives -f exactly when the filter evaluates true and is '
               're-registered through add_route', main.loc,
